@@ -32,8 +32,8 @@ class TemperatureFile(TemperatureArray):
             pressure_arr = arr[:, 0]*convertP
         else:
             arr = np.loadtxt(filename, skiprows=skiprows,
-                             usecols=int(temp_col),
-                             )
+                             usecols=int(temp_col), delimiter=delimiter,
+                             ndmin=1)
             temperature_arr = arr[:]*convertT
 
         super().__init__(tp_array=temperature_arr, p_points=pressure_arr)
